@@ -70,7 +70,7 @@ fn random_exec(sim: &RefSim, rng: &mut SplitMix, steps: usize) -> Exec {
 
 /// values of `root` at steps 0..steps-1
 fn run(sim: &RefSim, ex: &Exec, root: ExprRef, steps: usize) -> Result<Vec<Val>, String> {
-    let mut s = sim.initial(&ex.free_init)?;
+    let mut s = sim.initial(&ex.free_init, &ex.inputs[0])?;
     let mut out = vec![];
     for k in 0..steps {
         out.push(sim.eval(&s, &ex.inputs[k], root)?);
